@@ -1,10 +1,186 @@
-/- driver ops for property C14 (model side of the correspondence) -/
-import Rsa.Core.Wire
+/- driver ops for property C14 (model side of the correspondence)
 
-open Lean Rsa.Wire
+   op "c14.run":
+     mode    "rat" (exact; methods full, diag, shrinkage_eye) | "float" (all four methods)
+     kind    "residuals" | "measurements" | "unbalanced"
+     method  "full" | "diag" | "shrinkage_eye" | "shrinkage_diag"
+     p       number of channels
+     inputs  [ {"rows": [[x..]..], "labels": [n..]?} .. ]      numbers as ints / "p/q"
+     as_list true: the call received a list (answer is a list), false: a single input
+     dof     null | number | [numbers]
+   answer: one (or a list of) {"cov": [[..]] | null, "prec": [[..]] | null,
+                               "lam": λ | null, "clip": "lo"|"hi"|"in"|"deg"|null}
+     cov  = null : the library raises (unbalanced design handed to np.stack, short dof list)
+     prec = null : covariance singular (exact test)
+     prec is always computed exactly (Rat) with the certificate A·B = I checked; in
+     float mode the double-valued covariance is first converted to the rationals it denotes.
+-/
+import Rsa.Core.Wire
+import Rsa.Core.Noise
+
+open Lean Rsa.Wire Rsa.Noise
 
 namespace Rsa.Drv.C14
 
-def handle : Handler := fun _op _j => none
+/-- placeholder only: the exact mode rejects `shrinkage_diag` (the one method calling
+    `np.sqrt`) before any square root could be taken. -/
+local instance : Rsa.HasSqrt Rat := ⟨fun _ => 0⟩
+
+/-- the rational a finite double denotes -/
+def floatToRat (f : Float) : Option Rat :=
+  let b := f.toBits.toNat
+  let neg := b / 2 ^ 63 = 1
+  let e : Nat := (b / 2 ^ 52) % 2048
+  let m : Nat := b % 2 ^ 52
+  if e = 2047 then none
+  else
+    let (mant, ex) : Nat × Int := if e = 0 then (m, -1074) else (m + 2 ^ 52, (e : Int) - 1075)
+    let v : Rat := if ex ≥ 0 then (mant : Rat) * ((2 : Rat) ^ ex.toNat)
+                   else (mant : Rat) / ((2 : Rat) ^ (-ex).toNat)
+    some (if neg then -v else v)
+
+def ratToFloat (r : Rat) : Float := Float.ofInt r.num / Float.ofNat r.den
+
+def parseMethod (s : String) : R Method :=
+  match s with
+  | "full" => pure .full
+  | "diag" => pure .diag
+  | "shrinkage_eye" => pure .eye
+  | "shrinkage_diag" => pure .sdiag
+  | _ => throw s!"unknown method {s}"
+
+def rowOf {α} [Zero α] (l : List α) : Row α := fun j => l[j]?.getD 0
+
+structure Input (α : Type) where
+  rows : List (List α)
+  labels : List Nat
+
+section generic
+variable {α : Type} [Add α] [Sub α] [Mul α] [Div α] [Zero α] [One α] [NatCast α] [Neg α]
+variable [LT α] [DecidableLT α] [Min α] [Max α] [Rsa.HasSqrt α]
+
+/-- shrinkage intensity and which side of the clip it is on (for coverage tags) -/
+def lamInfo (m : Method) (rows : List (Row α)) (dof : α) (p : Nat) : Option α × String :=
+  match m with
+  | .eye =>
+    if 0 < eyeD2 rows p then
+      (some (eyeLambda rows p),
+        if eyeD2 rows p < eyeB2raw rows p then "hi"
+        else if 0 < eyeB2raw rows p then "in" else "lo")
+    else (some (eyeLambda rows p), "deg")
+  | .sdiag =>
+    if 0 < sdDen rows dof p then
+      let raw := sdNum rows dof p / sdDen rows dof p
+      (some (sdLambda rows dof p), if 1 < raw then "hi" else if raw < 0 then "lo" else "in")
+    else (some (sdLambda rows dof p), "deg")
+  | _ => (none, "")
+
+/-- covariance of one input with the dof handed to it (`none` = natural dof), through the
+    evaluation plan of `Rsa.Core.Noise` (proved equal to the model functions);
+    outer `none` = the library raises -/
+def covOne (kind : String) (m : Method) (inp : Input α) (dof : Option α) (p : Nat) :
+    Option (List (List α) × Option α × String) :=
+  let rows := inp.rows.map rowOf
+  let obs : List (Obs α) := List.zip inp.labels rows
+  match kind with
+  | "residuals" =>
+    let d := dof.getD ((Rsa.Gen.C14.dofResiduals rows.length : Nat) : α)
+    let (l, c) := lamInfo m (residRows2 rows p) d p
+    some (covFromResidualsL m rows dof p, l, c)
+  | "measurements" =>
+    match balancedR (groups obs) with
+    | none => none
+    | some r =>
+      let d := dof.getD ((Rsa.Gen.C14.dofTensor (groups obs).length r : Nat) : α)
+      let (l, c) := lamInfo m (residRows3 (groups obs) p) d p
+      (covFromMeasurementsL m obs dof p).map (fun cv => (cv, l, c))
+  | _ =>
+    let d := dof.getD ((Rsa.Gen.C14.dofUnbalanced obs.length (uniq (labels obs)).length : Nat) : α)
+    let (l, c) := lamInfo m (residRowsUnb obs p) d p
+    some (covFromUnbalancedL m obs dof p, l, c)
+
+end generic
+
+/-- exact precision of a covariance given as rationals -/
+def precJson (p : Nat) (cov : Mat Rat) : Json :=
+  match precOf cov p with
+  | none => Json.null
+  | some b => ofList (ofList ofRat) (matList p b)
+
+def resultJson {α} (p : Nat) (out : α → Json) (toRat : α → Option Rat)
+    (r : Option (List (List α) × Option α × String)) : Json :=
+  match r with
+  | none => obj [("cov", Json.null), ("prec", Json.null), ("lam", Json.null), ("clip", Json.null)]
+  | some (cl, lam, clip) =>
+    let exact : Option (List (List Rat)) := cl.mapM (fun row => row.mapM toRat)
+    let prec := match exact with
+      | none => Json.null
+      | some e => precJson p (fun j k => ((e[j]?).getD [])[k]?.getD 0)
+    obj [("cov", ofList (ofList out) cl), ("prec", prec),
+         ("lam", ofOpt out lam), ("clip", if clip = "" then Json.null else Json.str clip)]
+
+def parseInput {α} (num : Json → R α) (j : Json) : R (Input α) := do
+  let rows ← fld j "rows" >>= asList (asList num)
+  let labels ← match j.getObjVal? "labels" with
+    | .ok v => if v.isNull then pure [] else asList asNat v
+    | .error _ => pure []
+  pure { rows := rows, labels := labels }
+
+def parseDof {α} (num : Json → R α) (j : Json) : R (DofArg α) :=
+  if j.isNull then pure .none
+  else match j with
+    | .arr _ => do let l ← asList num j; pure (.list l)
+    | _ => do let x ← num j; pure (.scalar x)
+
+section run
+variable {α : Type} [Add α] [Sub α] [Mul α] [Div α] [Zero α] [One α] [NatCast α] [Neg α]
+variable [LT α] [DecidableLT α] [Min α] [Max α] [Rsa.HasSqrt α]
+
+def runG (num : Json → R α) (out : α → Json) (toRat : α → Option Rat) (j : Json) : R Json := do
+  let kind ← fld j "kind" >>= asStr
+  let m ← fld j "method" >>= asStr >>= parseMethod
+  let p ← fld j "p" >>= asNat
+  let inputs ← fld j "inputs" >>= asList (parseInput num)
+  let asL ← fld j "as_list" >>= asBool
+  let dof ← parseDof num (fldD j "dof" Json.null)
+  if asL then
+    -- the list branches: `cov_from_measurements` delegates to `cov_from_unbalanced`
+    let kind' := if kind = "residuals" then "residuals" else "unbalanced"
+    let res := (List.range inputs.length).map (fun i =>
+      match inputs[i]?, dof.at i with
+      | some inp, some di => covOne kind' m inp di p
+      | _, _ => none)
+    pure (ofList (resultJson p out toRat) res)
+  else
+    match inputs, dof with
+    | [inp], .none => pure (resultJson p out toRat (covOne kind m inp Option.none p))
+    | [inp], .scalar d => pure (resultJson p out toRat (covOne kind m inp (some d) p))
+    | _, _ => throw "single input needs exactly one input and a scalar / null dof"
+
+end run
+
+def run (j : Json) : R Json := do
+  let mode ← fld j "mode" >>= asStr
+  if mode = "rat" then
+    let m ← fld j "method" >>= asStr >>= parseMethod
+    if m = .sdiag then throw "shrinkage_diag needs float mode (np.sqrt)"
+    runG (α := Rat) asRat ofRat (fun r => some r) j
+  else
+    runG (α := Float) (fun v => ratToFloat <$> asRat v) ofFloat floatToRat j
+
+/-- op "c14.dof": the three generated leaves on concrete sizes -/
+def dofs (j : Json) : R Json := do
+  let n ← fld j "n" >>= asNat
+  let c ← fld j "c" >>= asNat
+  let r ← fld j "r" >>= asNat
+  pure (obj [("residuals", ofNat (Rsa.Gen.C14.dofResiduals n)),
+             ("tensor", ofNat (Rsa.Gen.C14.dofTensor c r)),
+             ("unbalanced", ofNat (Rsa.Gen.C14.dofUnbalanced n c))])
+
+def handle : Handler := fun op j =>
+  match op with
+  | "c14.run" => some (run j)
+  | "c14.dof" => some (dofs j)
+  | _ => none
 
 end Rsa.Drv.C14
